@@ -41,6 +41,10 @@ CHECKS.update({
              note=E2_NOTE, ref="§7 E2, §8 C11, App. A.8"),
 })
 
+CHECKS["C12"] = dict(engine="E6", technique="runtime monitoring: generated TTL / ReadOptions / Frame values and grammar-neighbour strings through every spelling; accepted frames pushed through a real store (append, import, reads, reopen) with panic detection",
+             text="Exploration of the wire-reachable value domains (10^5 cases per run) with round-trip oracles, plus a store leg in a child process that offers frames around serde_json's 128-level recursion limit and checks that whatever was accepted is read back identically by both read paths before and after a reopen.",
+             note="Trusted base: Rust PartialEq on TTL/ReadOptions/Frame; the float domain is restricted to exactly re-parsable values (DESIGN §9).", ref="§7 E6, §8 C12")
+
 NOT_YET = {
 }
 
@@ -77,6 +81,7 @@ def main():
         },
         "engines": [
             {"name": "E1", "path": "harness/src/e1.rs", "serves_properties": ["C01", "C05", "C07", "C08", "C09", "C20"], "kind_free_text": "store-history explorer vs reference model (child-process sessions)"},
+            {"name": "E6", "path": "harness/src/e6.rs", "serves_properties": ["C12"], "kind_free_text": "codec round-trip generators + store poison leg"},
             {"name": "E2", "path": "harness/src/e2.rs", "serves_properties": ["C02", "C03", "C11"], "kind_free_text": "in-process concurrency stress with sync-point schedule perturbation; history checkers at the client boundary"},
         ],
         "checks": checks,
